@@ -232,28 +232,45 @@ pub trait Surface {
     // (Surface::map has the same shape but its closure captures the caller's `mut f`: "closures capturing a mutable reference" are not supported)
 }
 
+// a window has at most as many cells as its root matrix, which fits the buffer: far below usize::MAX
+proof fn lemma_window_fits(s: Shape, win: Win, n: nat)
+    requires rep(s, win, n),
+    ensures s.height * s.width <= n, s.height * s.width <= isize::MAX,
+{
+    if win.h > 0 && win.w > 0 {
+        if win.t {
+            assert(win.h * win.w <= win.rw * win.rh) by (nonlinear_arith) requires win.h <= win.rw, win.w <= win.rh;
+            assert(win.rw * win.rh == win.rh * win.rw) by (nonlinear_arith);
+        } else {
+            assert(win.h * win.w <= win.rh * win.rw) by (nonlinear_arith) requires win.h <= win.rh, win.w <= win.rw;
+        }
+    } else {
+        assert(win.h * win.w == 0) by (nonlinear_arith) requires win.h == 0 || win.w == 0;
+    }
+}
+
 // N5: `impl Iterator for SurfaceIter` re-homed as inherent methods (bodies verbatim)
 impl<'a, T> SurfaceIter<'a, T> {
     //@ fn impl<'a, T: 'a> Iterator for SurfaceIter<'a, T> :: nth ret=r
     //@+ requires
     //@+     exists|win: Win| rep(old(self).shape, win, old(self).data@.len()),
-    //@+     old(self).index + n + 1 <= usize::MAX,
     //@+ ensures
-    //@+     final(self).index == old(self).index + n + 1,
+    //@+     // (any n, also usize::MAX: the position saturates and the iterator stays exhausted)
+    //@+     final(self).index == (if old(self).index + n + 1 > usize::MAX { usize::MAX as int } else { old(self).index + n + 1 }),
     //@+     final(self).shape == old(self).shape, final(self).data == old(self).data,
     //@+     ({ let k = old(self).index + n; let s = old(self).shape;
     //@+        &&& k < s.height * s.width ==> r == Some(&old(self).data@[spec_offset(s, Position { row: (k / s.width as int) as usize, col: (k % s.width as int) as usize })])
     //@+        &&& k >= s.height * s.width ==> r is None }),
     //@subst N5 associated type of the dropped trait impl spelled out /Self::Item/&'a T/
     //@proof after:/let\spos\s=/ proof { let w0 = choose|win: Win| rep(old(self).shape, win, old(self).data@.len()); lemma_offset(self.shape, w0, self.data@.len(), pos); }
+    //@proof start proof { let w0 = choose|win: Win| rep(old(self).shape, win, old(self).data@.len()); lemma_window_fits(old(self).shape, w0, old(self).data@.len()); }
 
     //@ fn impl<'a, T: 'a> Iterator for SurfaceIter<'a, T> :: next ret=r
     //@subst N5 associated type of the dropped trait impl spelled out /Self::Item/&'a T/
     //@+ requires
     //@+     exists|win: Win| rep(old(self).shape, win, old(self).data@.len()),
-    //@+     old(self).index + 1 <= usize::MAX,
     //@+ ensures
-    //@+     final(self).index == old(self).index + 1,
+    //@+     final(self).index == (if old(self).index + 1 > usize::MAX { usize::MAX as int } else { old(self).index + 1 }),
     //@+     final(self).shape == old(self).shape, final(self).data == old(self).data,
     //@+     ({ let k = old(self).index as int; let s = old(self).shape;
     //@+        &&& k < s.height * s.width ==> r == Some(&old(self).data@[spec_offset(s, Position { row: (k / s.width as int) as usize, col: (k % s.width as int) as usize })])
@@ -305,14 +322,15 @@ impl<'a, T> SurfaceMutIter<'a, T> {
     //@ fn impl<'a, T: 'a> Iterator for SurfaceMutIter<'a, T> :: nth ret=r
     //@+ requires
     //@+     exists|win: Win| rep(old(self).shape, win, old(self).data@.len()),
-    //@+     old(self).index + n + 1 <= usize::MAX,
     //@+ ensures
-    //@+     final(self).index == old(self).index + n + 1,
+    //@+     // (any n, also usize::MAX: the position saturates and the iterator stays exhausted)
+    //@+     final(self).index == (if old(self).index + n + 1 > usize::MAX { usize::MAX as int } else { old(self).index + n + 1 }),
     //@+     final(self).shape == old(self).shape, final(self).data@.len() == old(self).data@.len(),
     //@+     ({ let k = old(self).index + n; let s = old(self).shape;
     //@+        &&& k < s.height * s.width ==> r is Some
     //@+        &&& k >= s.height * s.width ==> r is None }),
     //@subst N5 associated type of the dropped trait impl spelled out /Self::Item/&'a mut T/
+    //@proof start proof { let w0 = choose|win: Win| rep(old(self).shape, win, old(self).data@.len()); lemma_window_fits(old(self).shape, w0, old(self).data@.len()); }
     //@subst N8 raw-pointer element access replaced by a call whose precondition is the safety condition /let ptr = self\.data\.as_mut_ptr\(\);\s*let item = unsafe \{ &mut \*ptr\.add\(offset\) \};/let item = slice_item_mut_unchecked(&mut self.data, offset);/
     //@proof after:/let\spos\s=/ proof { let w0 = choose|win: Win| rep(old(self).shape, win, old(self).data@.len()); lemma_offset(self.shape, w0, self.data@.len(), pos); }
 }
